@@ -66,6 +66,8 @@ func (self *Interpreter) letStatement(node ast.AnalyzedLetStatement) *value.Inte
 	}
 
 	if node.Expression.Type().Kind() != ast.AnyTypeKind && node.Expression.Type().Kind() != node.OptType.Kind() {
+		// nothing to validate, but the variable must still be defined
+		self.addVar(node.Ident.Ident(), *rhsVal)
 		return nil
 	}
 
